@@ -101,7 +101,7 @@ def gen_case(rng, force=None):
             if "pixel" not in owners and rng.random() < 0.3:
                 step_ops[mi].append(["add", "pixel", rng.randrange(1, 60)])
             if rng.random() < 0.12:
-                step_ops[mi].append(["scene", rng.randrange(1, 50)])
+                step_ops[mi].append(["scene", rng.randrange(1, 50), rng.choice([wl, wl, [500.0, 700.0], [400.0, 500.0, 600.0, 800.0]])])
             if rng.random() < 0.15:
                 step_ops[mi].append(["data", rng.choice(["alpha", "beta"]) + (str(i) if rng.random() < 0.5 else ""), [rng.randrange(0, 99) for _ in range(3)]])
         plan.append(step_ops)
@@ -126,6 +126,19 @@ def gen_last_history(rng, kind):
             plan.append([[["set", "photon", "float64", [v + i for v in vals]]], [["add", "pixel", 5 + i]]])
     c["plan"] = plan
     c["second_run"] = False
+    return c
+
+
+def gen_scene_clash(rng):
+    """a scene source and a multi-wavelength photon bucket on different wavelength grids"""
+    c = gen_case(rng, {"nsteps": rng.choice([1, 2])})
+    npix = c["rows"] * c["cols"]
+    c["models"] = [["scene_generation", "sky"], ["photon_collection", "optics"]]
+    wl = [500.0, 600.0]
+    c["plan"] = [[[["scene", 7 + i, rng.choice([[500.0, 700.0], [400.0, 500.0, 600.0]])]],
+                  [["set3d", "float64", wl, [rng.randrange(1, 90) for _ in range(2 * npix)]]]] for i in range(len(c["times"]))]
+    c["second_run"] = False
+    c["debug_layout_tree"] = True
     return c
 
 
@@ -233,22 +246,33 @@ def one_run(case, layout_tree, debug, det=None):
 
 
 def run_impl(case):
+    import traceback
+
     import pyx
 
-    try:
-        out = {"flat": one_run(case, False, False), "tree": one_run(case, True, False)}
+    def guarded(fn):
+        try:
+            return fn()
+        except Exception as e:  # noqa: BLE001
+            return {"error": common.err_kind(e), "msg": str(e)[:300], "tb": traceback.format_exc()[-600:]}
+
+    out = {"flat": guarded(lambda: one_run(case, False, False)), "tree": guarded(lambda: one_run(case, True, False))}
+
+    def debug_run():
         det = None
         if case.get("second_run"):
             # an earlier debug run on the same detector (other schedule, same pipeline shape)
             det = pyx.make_detector(case["detector"], case["rows"], case["cols"])
             early = dict(case, times=[case["times"][0] + 0.25, case["times"][0] + 1.5], plan=[case["plan"][0]] * 2)
             one_run(early, False, True, det)
-        out["debug"] = one_run(case, case["debug_layout_tree"], True, det)
-        return out
-    except Exception as e:  # noqa: BLE001
-        import traceback
+        return one_run(case, case["debug_layout_tree"], True, det)
 
-        return {"error": common.err_kind(e), "msg": str(e)[:300], "tb": traceback.format_exc()[-800:]}
+    out["debug"] = guarded(debug_run)
+    return out
+
+
+def scene_in_last_step(case):
+    return any(op[0] == "scene" for ops in case["plan"][-1] for op in ops)
 
 
 # ------------------------------------------------------------------ the statement, on the implementation's output
@@ -310,8 +334,14 @@ def check_record(case, run, tag):
 
 
 def property_predicate(case, impl):
-    if "error" in impl:
-        return ("C03:run-failed", f"exposure of writer probes failed: {impl['error']} {impl['msg']}")
+    for tag in ("flat", "tree", "debug"):
+        if "error" in impl[tag]:
+            flat_like = tag == "flat" or (tag == "debug" and not case["debug_layout_tree"])
+            if flat_like and scene_in_last_step(case) and "not aligned with its parents" in impl[tag]["msg"]:
+                return ("C03:flat-layout-fails-with-scene",
+                        f"{tag}: the models produced a scene and a multi-wavelength photon bucket on different wavelength grids; the "
+                        f"flat layout raises {impl[tag]['error']} instead of returning the result: {impl[tag]['msg'][:120]}")
+            return ("C03:run-failed", f"{tag}: exposure of writer probes failed: {impl[tag]['error']} {impl[tag]['msg']}")
     for tag in ("flat", "tree", "debug"):
         why = check_record(case, impl[tag], tag)
         if why:
@@ -335,10 +365,11 @@ def property_predicate(case, impl):
         key = (w["step"], g, m)
         first = w["step"] not in n_first
         n_first.setdefault(w["step"], key)
-        want = {b: [v["dtype"], v["vals"]] for b, v in changed_by(w["before"], w["after"]).items()}
+        want = {b: v["vals"] for b, v in changed_by(w["before"], w["after"]).items()}
         got = nodes.get(key)
         if got is None:
             return ("C03:debug-node-missing", f"no debug node for step {w['step']} {g}/{m}")
+        got = {b: v[1] for b, v in got.items()}  # names and values (the statement does not speak of dtypes here)
         if got != want:
             cls = "first-model-of-later-step" if (first and w["step"] > 0) else "model"
             return (f"C03:debug-changed:{cls}",
@@ -352,7 +383,7 @@ def property_predicate(case, impl):
 
 # ------------------------------------------------------------------ Lean side
 def lean_snap(buckets):
-    return {b: (None if v is None else [v["dtype"], v["vals"]]) for b, v in buckets.items()}
+    return {b: (None if v is None else ["float64" if "wl" in v else v["dtype"], v["vals"]]) for b, v in buckets.items()}
 
 
 def lean_request(case):
@@ -365,7 +396,9 @@ def lean_request(case):
                 if op[0] == "set":
                     lops.append(["set", op[1], op[2], op[3]])
                 elif op[0] == "set3d":
-                    lops.append(["set", "photon", op[1], op[3]])
+                    # `Photon.to_xarray()` shows a 3-D array through `astype(None)`, i.e. as float64, in the result
+                    # and in the debug record alike: the model tracks the dtype that `to_xarray` exposes
+                    lops.append(["set", "photon", "float64", op[3]])
                 elif op[0] in ("add", "same"):
                     lops.append(op)
             ms.append({"group": g, "name": name, "ops": lops})
@@ -376,13 +409,17 @@ def lean_request(case):
         assert [order[m["group"]] for m in ms] == sorted(order[m["group"]] for m in ms)
     return {"op": "run", "npix": case["rows"] * case["cols"], "nd": case["nd"],
             "abs": [common.frac(case["start"] + t) for t in case["times"]],
-            "prior": {b: None for b in BUCKETS}, "steps": steps}
+            "prior": {b: None for b in BUCKETS}, "steps": steps, "scene_empty": not scene_in_last_step(case)}
 
 
 def compare_with_model(ck, case, impl, ans):
-    if "error" in impl:
+    if any("error" in impl[t] for t in ("flat", "tree", "debug")):
+        ck.disagreement("run-failed", case, {t: impl[t].get("error") for t in impl}, "ok")
         return
     flat, dbg = impl["flat"], impl["debug"]
+    layouts = [impl["flat"]["result"]["layout"], impl["tree"]["result"]["layout"]]
+    if layouts != ans["layout"]:
+        ck.disagreement("layout", case, layouts, ans["layout"])
     mine = [lean_snap(s["buckets"]) for s in flat["snaps"]]
     if mine != ans["snaps"] or ans["snaps"] != ans["snaps_plain"]:
         ck.disagreement("states", case, mine[:2], ans["snaps"][:2])
@@ -413,6 +450,8 @@ def body(ck: common.Check):
     for kind in ("rewrite-same", "reset-credit"):
         for _ in range(4 * k):
             cases.append(("last-history", gen_last_history(rng, kind)))
+    for _ in range(4 * k):
+        cases.append(("scene-clash", gen_scene_clash(rng)))
     impls = pool_map(run_impl, [c for _, c in cases])
     answers = LeanDriver("C03").batch([lean_request(c) for _, c in cases])
     for (stream, case), impl, ans in zip(cases, impls, answers):
@@ -433,8 +472,8 @@ def body(ck: common.Check):
         ck.count("second-run-on-same-detector", int(bool(case.get("second_run"))))
         why = property_predicate(case, impl)
         if why is not None:
-            small = {"error": impl.get("error"), "msg": impl.get("msg"), "tb": impl.get("tb")} if "error" in impl else {
-                "flat_result": impl["flat"]["result"], "debug_nodes": impl["debug"]["intermediate"]}
+            small = {t: ({"error": impl[t]["error"], "msg": impl[t]["msg"]} if "error" in impl[t] else
+                         {"result": impl[t]["result"], "nodes": impl[t]["intermediate"]}) for t in ("flat", "tree", "debug")}
             ck.violation(why[0], why[1], {"case": case, "impl": small})
         compare_with_model(ck, case, impl, ans)
     ck.rule = ("pipelines of 1-8 writer probes over 1-4 groups + a snapshot probe last; 1-6 readouts, start time ≠ 0, both modes; "
